@@ -101,7 +101,7 @@ impl Context {
 //@@ endfn
 
 //@@ fn ctx.with_result = src/processor.rs :: impl Context :: fn with_result
-//@@ safety C12
+//@@ safety C12 C13 C15 C19
 //@@ ret r
 //@@ header-from specs/ctx/with_result.spec
 //@@ endfn
@@ -165,7 +165,7 @@ impl Context {
 //@@ endfn
 
 //@@ fn ctx.build = src/processor.rs :: impl Context :: fn build
-//@@ safety C03 C05
+//@@ safety C03 C05 C15 C19
 //@@ ret r
 //@@ header-from specs/ctx/build.spec
 //@@ loop 1 iter it
@@ -219,7 +219,7 @@ impl Context {
 //@@ endfn
 
 //@@ fn ctx.key = src/processor.rs :: impl Context :: fn key
-//@@ safety C10
+//@@ safety C10 C19
 //@@ ret r
 //@@ header-from specs/ctx/key.spec
 //@@ endfn
